@@ -14,7 +14,7 @@ class TermError(Exception):
     pass
 
 
-def ev(t, tabs, x=None):
+def ev(t, tabs, x=None, y=None):
     """Evaluate a term (nested JSON arrays emitted by TLC) to a float / numpy array."""
     op = t[0]
     if op == "q":
@@ -27,35 +27,37 @@ def ev(t, tabs, x=None):
         return np.float64(tabs[t[1]][t[2]][t[3]])
     if op == "x":
         return x
+    if op == "y":
+        return y
     if op == "mul":
-        return ev(t[1], tabs, x) * ev(t[2], tabs, x)
+        return ev(t[1], tabs, x, y) * ev(t[2], tabs, x, y)
     if op == "div":
-        return ev(t[1], tabs, x) / ev(t[2], tabs, x)
+        return ev(t[1], tabs, x, y) / ev(t[2], tabs, x, y)
     if op == "add":
-        return ev(t[1], tabs, x) + ev(t[2], tabs, x)
+        return ev(t[1], tabs, x, y) + ev(t[2], tabs, x, y)
     if op == "sub":
-        return ev(t[1], tabs, x) - ev(t[2], tabs, x)
+        return ev(t[1], tabs, x, y) - ev(t[2], tabs, x, y)
     if op == "neg":
-        return -ev(t[1], tabs, x)
+        return -ev(t[1], tabs, x, y)
     if op == "inv":
-        return np.float64(1.0) / ev(t[1], tabs, x)
+        return np.float64(1.0) / ev(t[1], tabs, x, y)
     if op == "powq":
-        return np.power(ev(t[1], tabs, x), np.float64(t[2]) / np.float64(t[3]))
+        return np.power(ev(t[1], tabs, x, y), np.float64(t[2]) / np.float64(t[3]))
     if op == "prod":
         r = np.float64(1.0)
         for s in t[1]:
-            r = r * ev(s, tabs, x)
+            r = r * ev(s, tabs, x, y)
         return r
     if op == "log10":
-        return np.log10(ev(t[1], tabs, x))
+        return np.log10(ev(t[1], tabs, x, y))
     if op == "ln":
-        return np.log(ev(t[1], tabs, x))
+        return np.log(ev(t[1], tabs, x, y))
     if op == "exp":
-        return np.exp(ev(t[1], tabs, x))
+        return np.exp(ev(t[1], tabs, x, y))
     if op == "exp10":
-        return np.power(10.0, ev(t[1], tabs, x))
+        return np.power(10.0, ev(t[1], tabs, x, y))
     if op == "abs":
-        return np.abs(ev(t[1], tabs, x))
+        return np.abs(ev(t[1], tabs, x, y))
     raise TermError(op)
 
 
@@ -138,7 +140,10 @@ def snapshot(q):
 def conv_value(x, u, v):
     """Quantity(x,u).value(v) on a fresh object -> ('val', value, unchanged?) | ('err', text, unchanged?)"""
     from scinumtools.units import Quantity
-    q = Quantity(x if not isinstance(x, list) else list(x), u)
+    try:
+        q = Quantity(x if not isinstance(x, list) else list(x), u)
+    except Exception as e:
+        return ("err", "construct: " + type(e).__name__ + ": " + str(e.args[:1])[:100], True)
     before = snapshot(q)
     try:
         r = q.value(v)
@@ -150,7 +155,10 @@ def conv_value(x, u, v):
 def conv_to(x, u, v):
     """Quantity(x,u).to(v) on a fresh object -> ('val', value, units expression, same object?) | ('err', text, unchanged?)"""
     from scinumtools.units import Quantity
-    q = Quantity(x if not isinstance(x, list) else list(x), u)
+    try:
+        q = Quantity(x if not isinstance(x, list) else list(x), u)
+    except Exception as e:
+        return ("err", "construct: " + type(e).__name__ + ": " + str(e.args[:1])[:100], True)
     before = snapshot(q)
     try:
         r = q.to(v)
